@@ -285,7 +285,12 @@ def do_check(prop, tier, args):
         if prop in ("C12", "C13"):
             round_n = workers * 2  # every seed is a whole sweep
         nxt = base
-        while time.time() < deadline - 5 and len(agg.failures) < 10:
+        def fresh_failures():
+            # failures of runs with the known-finding triggers switched on
+            # are almost always the known findings: they must not end the
+            # exploration
+            return sum(1 for f in agg.failures if not f[1].get("triggers"))
+        while time.time() < deadline - 5 and fresh_failures() < 10:
             a = run_batch(prop, tier, nxt, round_n, deadline, workers)
             agg.merge(a)
             nxt += round_n
